@@ -60,6 +60,16 @@ class _Rewriter(ast.NodeTransformer):
                                               args=[node.value, node.slice], keywords=[]), node)
         return node
 
+    def visit_Compare(self, node):
+        self.generic_visit(node)
+        if "in" in self.opts and len(node.ops) == 1 and isinstance(node.ops[0], (ast.In, ast.NotIn)):
+            self.count["in"] = self.count.get("in", 0) + 1
+            call = ast.Call(func=ast.Name(id="__vin__", ctx=ast.Load()), args=[node.left, node.comparators[0]], keywords=[])
+            if isinstance(node.ops[0], ast.NotIn):
+                call = ast.UnaryOp(op=ast.Not(), operand=call)
+            return ast.copy_location(call, node)
+        return node
+
     def visit_Call(self, node):
         self.generic_visit(node)
         if "fstr" in self.opts and isinstance(node.func, ast.Attribute) and node.func.attr == "format" \
@@ -299,7 +309,19 @@ def vformat(fmt, *args):
     return vfstr(items)
 
 
-HOOKS = {"__vformat__": vformat, "__vfmt__": vfmt, "__vfstr__": vfstr, "__vidx__": vidx, "__vjoin__": vjoin, "__vdict__": dict}
+def vin(a, b):
+    """a in b, where a may be symbolic text tested against a plain str / tuple (str.__contains__ refuses foreign operands)"""
+    if isinstance(a, SStr) and isinstance(b, str) and type(b) is str:
+        c = a.concrete()
+        if c is not None:
+            return c in b
+        return a in SStr.lift(b)
+    if isinstance(a, SStr) and isinstance(b, (tuple, list, set, frozenset)) and all(isinstance(x, str) for x in b):
+        return any(bool(a == x) for x in b)
+    return a in b
+
+
+HOOKS = {"__vin__": vin, "__vformat__": vformat, "__vfmt__": vfmt, "__vfstr__": vfstr, "__vidx__": vidx, "__vjoin__": vjoin, "__vdict__": dict}
 
 
 def instrument(func, opts=("fmt", "fstr", "idx"), owner=None, extra=None, hooks=None):
